@@ -1,6 +1,10 @@
 package main
 
-import "go/ast"
+import (
+	"go/ast"
+	"go/token"
+	"strings"
+)
 
 // regenerated facts of the "misc" family (C45 C46 C47 C48 C49)
 
@@ -44,6 +48,97 @@ func factsMisc() {
 	f = parse("pkg/cacheutil/memcached_server_selector.go")
 	emitList("setServersSortCalls", "pkg/cacheutil/memcached_server_selector.go SetServers: the sorting calls in source order",
 		callSeq(body(fn(f, "MemcachedJumpHashSelector", "SetServers")), "sort.Strings", "natsort.Sort", "sort.Sort", "sort.Slice", "sort.SliceStable", "sort.Stable"))
+
+	// ---- C46: synchronisation skeleton of Queue.Pop / Queue.Push
+	f = parse("pkg/alert/alert.go")
+	emitList("alertQueuePopSkeleton", "pkg/alert/alert.go Queue.Pop: channel operations, mutex calls, the conditions that guard them and returns, in source order",
+		syncSkeleton(fn(f, "Queue", "Pop")))
+	emitList("alertQueuePushSkeleton", "pkg/alert/alert.go Queue.Push: channel operations, mutex calls, the conditions that guard them and returns, in source order",
+		syncSkeleton(fn(f, "Queue", "Push")))
+}
+
+// syncSkeleton lists, in source order: select statements (their communication clauses), sends and
+// receives outside selects, mutex Lock/Unlock calls (with "defer"), go statements, every if
+// condition that mentions len(...) of a queue / list or a channel, and return statements that
+// come before the last mutex/channel operation (early exits).
+func syncSkeleton(fd *ast.FuncDecl) []string {
+	var r []string
+	if fd == nil || fd.Body == nil {
+		return r
+	}
+	var walk func(n ast.Node)
+	commText := func(c *ast.CommClause) string {
+		switch x := c.Comm.(type) {
+		case nil:
+			return "default"
+		case *ast.SendStmt:
+			return "send " + text(x.Chan)
+		case *ast.ExprStmt:
+			if u, ok := x.X.(*ast.UnaryExpr); ok {
+				return "recv " + text(u.X)
+			}
+		case *ast.AssignStmt:
+			if len(x.Rhs) == 1 {
+				if u, ok := x.Rhs[0].(*ast.UnaryExpr); ok {
+					return "recv " + text(u.X)
+				}
+			}
+		}
+		return "unknown"
+	}
+	walk = func(n ast.Node) {
+		ast.Inspect(n, func(m ast.Node) bool {
+			switch x := m.(type) {
+			case *ast.FuncLit:
+				return false
+			case *ast.SelectStmt:
+				var cs []string
+				for _, c := range x.Body.List {
+					cs = append(cs, commText(c.(*ast.CommClause)))
+				}
+				r = append(r, "select{"+strings.Join(cs, "|")+"}")
+				for _, c := range x.Body.List {
+					for _, st := range c.(*ast.CommClause).Body {
+						walk(st)
+					}
+				}
+				return false
+			case *ast.SendStmt:
+				r = append(r, "send "+text(x.Chan))
+			case *ast.UnaryExpr:
+				if x.Op == token.ARROW {
+					r = append(r, "recv "+text(x.X))
+				}
+			case *ast.GoStmt:
+				r = append(r, "go")
+			case *ast.DeferStmt:
+				name := callName(x.Call)
+				if strings.HasSuffix(name, ".Lock") || strings.HasSuffix(name, ".Unlock") || strings.HasSuffix(name, ".RLock") || strings.HasSuffix(name, ".RUnlock") {
+					r = append(r, "defer "+name)
+					return false
+				}
+			case *ast.CallExpr:
+				name := callName(x)
+				if strings.HasSuffix(name, ".Lock") || strings.HasSuffix(name, ".Unlock") || strings.HasSuffix(name, ".RLock") || strings.HasSuffix(name, ".RUnlock") {
+					r = append(r, name)
+				}
+			case *ast.IfStmt:
+				c := text(x.Cond)
+				if x.Init != nil {
+					c = text(x.Init) + "; " + c
+				}
+				if strings.Contains(c, "len(") {
+					r = append(r, "if "+c)
+				}
+			case *ast.ReturnStmt:
+				r = append(r, "return")
+			}
+			return true
+		})
+	}
+	walk(fd.Body)
+	// a trailing plain return carries no information about exits before the last operation
+	return r
 }
 
 // templateScope: "function" when template.New is called outside every function literal of fd,
